@@ -34,7 +34,7 @@ var c10Out = []c10Msg{
 	{MID: "OUTM4", To: []string{"N0AAA"}, Cc: []string{"N0BBB"}, P2POnly: true}, // P2P-only with two recipients: for nobody
 	{MID: "OUTM5", Cc: []string{"N0BBB"}},
 }
-var c10In = []string{"INBM1", "INBM2"}
+var c10In = []string{"INBM1", "IN_2-m.x"} // the second one with the other characters foreign systems put into a MID
 
 var c10FWs = [][]string{nil, {"N0AAA"}, {"N0BBB"}, {"N0AAA", "N0BBB"}, {"n0aaa"}, {"N0AAA@winlink.org"}, {"SMTP:n0bbb@example.org"}}
 
@@ -64,6 +64,25 @@ func c10BuildOutV2(m c10Msg) *fbb.Message {
 	return x
 }
 
+// c10BuildOutV3 is a third posting of exactly the same serialised size as the first one.
+func c10BuildOutV3(m c10Msg) *fbb.Message {
+	x := c10BuildOut(m)
+	x.SetSubject("third posting"[:len("subject ")] + m.MID)
+	x.SetBody("BODY " + m.MID + "\r\n")
+	return x
+}
+
+// c10Posting tells which posting of a message the bytes are.
+func c10Posting(x []byte) string {
+	switch {
+	case bytes.Contains(x, []byte("second posting")):
+		return "[second posting]"
+	case bytes.Contains(x, []byte("third po")):
+		return "[third posting]"
+	}
+	return ""
+}
+
 func c10BuildIn(mid string) *fbb.Message {
 	x := fbb.NewMessage(fbb.Private, "N0REMOTE")
 	x.Header.Set("Mid", mid)
@@ -91,7 +110,7 @@ func stripPrivate(m *fbb.Message, keys ...string) []byte {
 // ---- operations -------------------------------------------------------------------------------
 
 type c10Op struct {
-	Kind string `json:"kind"` // AddOut AddOutV2 Prepare GetOutbound SetSent SetDeferred ProcessInbound ProcessInboundAll GetInboundAnswer SetUnread SetUnreadTwice Restart
+	Kind string `json:"kind"` // AddOut AddOutV2 AddOutV3 Prepare GetOutbound SetSent SetDeferred ProcessInbound ProcessInboundAll GetInboundAnswer SetUnread SetUnreadTwice Restart
 	I    int    `json:"i"`    // message / forwarder-list index
 	B    bool   `json:"b"`    // SetUnread value / Restart sendOnly
 }
@@ -124,7 +143,11 @@ func (m *c10Model) enabled() []c10Op {
 	}
 	// the first message posted again, with other content, once it has been sent
 	if m.Sent[c10Out[0].MID] != nil && m.Out[c10Out[0].MID] == nil {
-		ops = append(ops, c10Op{Kind: "AddOutV2", I: 0})
+		ops = append(ops, c10Op{Kind: "AddOutV2", I: 0}, c10Op{Kind: "AddOutV3", I: 0})
+	}
+	// ... and an edited draft of the same size posted over the one still in the outbox
+	if x := m.Out[c10Out[0].MID]; x != nil && c10Posting(x) != "[third posting]" {
+		ops = append(ops, c10Op{Kind: "AddOutV3", I: 0})
 	}
 	ops = append(ops, c10Op{Kind: "Prepare"}, c10Op{Kind: "Restart", B: false}, c10Op{Kind: "Restart", B: true})
 	if m.Prepared {
@@ -176,6 +199,10 @@ func (m *c10Model) apply(o c10Op) string {
 		om := c10Out[o.I]
 		m.Out[om.MID] = stripPrivate(c10BuildOutV2(om), "X-Filepath", "X-Unread")
 		return "ok"
+	case "AddOutV3":
+		om := c10Out[o.I]
+		m.Out[om.MID] = stripPrivate(c10BuildOutV3(om), "X-Filepath", "X-Unread")
+		return "ok"
 	case "Prepare":
 		m.Deferred = map[string]bool{}
 		m.Prepared = true
@@ -192,10 +219,7 @@ func (m *c10Model) apply(o c10Op) string {
 			if _, ok := m.Out[om.MID]; !ok || m.Deferred[om.MID] {
 				continue
 			}
-			name := om.MID
-			if bytes.Contains(m.Out[om.MID], []byte("second posting")) {
-				name += "[second posting]"
-			}
+			name := om.MID + c10Posting(m.Out[om.MID])
 			if len(fw) == 0 {
 				if om.P2POnly {
 					continue
@@ -271,11 +295,7 @@ func (m *c10Model) key() string {
 		}
 		if om.MID == c10Out[0].MID { // which posting lies where
 			for _, x := range [][]byte{m.Out[om.MID], m.Sent[om.MID]} {
-				if bytes.Contains(x, []byte("second posting")) {
-					b.WriteByte('2')
-				} else {
-					b.WriteByte('1')
-				}
+				b.WriteString("1" + c10Posting(x))
 			}
 		}
 	}
@@ -334,6 +354,11 @@ func (r *c10Real) apply(o c10Op) (res string) {
 			return "error: " + err.Error()
 		}
 		return "ok"
+	case "AddOutV3":
+		if err := r.h.AddOut(c10BuildOutV3(c10Out[o.I])); err != nil {
+			return "error: " + err.Error()
+		}
+		return "ok"
 	case "Prepare":
 		if err := r.h.Prepare(); err != nil {
 			return "error: " + err.Error()
@@ -355,17 +380,22 @@ func (r *c10Real) apply(o c10Op) (res string) {
 					mids[len(mids)-1] += "[carries " + k + "]"
 				}
 			}
-			var want, want2 []byte
+			var want, want2, want3 []byte
 			for _, om := range c10Out {
 				if om.MID == m.MID() {
 					want = stripPrivate(c10BuildOut(om), "X-P2POnly", "X-Filepath", "X-Unread")
 					want2 = stripPrivate(c10BuildOutV2(om), "X-P2POnly", "X-Filepath", "X-Unread")
+					want3 = stripPrivate(c10BuildOutV3(om), "X-P2POnly", "X-Filepath", "X-Unread")
 				}
 			}
 			got := stripPrivate(m, "X-P2POnly", "X-Filepath", "X-Unread")
-			if bytes.Equal(got, want2) && !bytes.Equal(want, want2) {
+			switch {
+			case bytes.Equal(got, want):
+			case bytes.Equal(got, want2):
 				mids[len(mids)-1] += "[second posting]"
-			} else if !bytes.Equal(got, want) {
+			case bytes.Equal(got, want3):
+				mids[len(mids)-1] += "[third posting]"
+			default:
 				mids[len(mids)-1] += "[content differs]"
 			}
 		}
